@@ -391,12 +391,10 @@ def check_dataset(layout, ids, indivs, only=None):
                         f"({len(wobs)} observation record(s))", nobs=len(wobs))
             else:
                 g = [(i, t, v) for (i, t), v in zip(got.index.tolist(), got.tolist())]
-                tn = R.num_time(layout, recs) if layout != "clock" else None
                 w = [(i, float(t) if layout != "clock" else t, v) for (i, t, v) in wobs]
                 if len(g) != len(w) or any(not (a[0] == b[0] and veq(a[1], b[1]) and feq(a[2], b[2]))
                                            for a, b in zip(g, w)):
                     iss.add("get_observations:value", f"get_observations gives {g}, reference walk gives {w}")
-                del tn
         ok, got = call(iss, "get_observations(keep_index)", pm.get_observations, model, keep_index=True)
         if ok:
             iss.compared += 1
